@@ -37,3 +37,9 @@ package v1
 //@   invariant loop 1 [C03]: forall g api.GroupVersionKind :: old(has(m, g)) && old(m[g]) != nil ==> has(m, g) && m[g] == old(m[g])
 //@   invariant loop 1 [C17,C03]: forall g api.GroupVersionKind :: has(m, g) ==> m[g] == nil || fresh(m[g]) || (old(has(m, g)) && m[g] == old(m[g]))
 //@   ensures [C03] forall g api.GroupVersionKind :: old(has(m, g)) && old(m[g]) != nil ==> has(m, g) && m[g] == old(m[g])
+
+// the key under which a RelativeObjectMap holds obj (see the key discipline at UniformObjectMap.FindGroupKindName)
+//@ func RelativeName(parent, obj) (name)
+//@   requires parent != nil && ref(parent) != nil && obj != nil
+//@   safety C13,C07
+//@   tags ufb_relativeKey(name)
